@@ -16,6 +16,9 @@ RULE = ("one history = `reset`, a constructor, then up to 30 (quick) / 60 (thoro
         "emptied, shrunk, self-assigned, converted buffer) x every second operation and save-mutate-restore; every pair of short "
         "vectors x capacity state for the six comparison operators; every buffer program of 2/3 steps; dynamic_array sizes 0..5. "
         "An op is non-trivial if it is executed (not `invalid`); distinct = distinct (op, result) pairs. "
+        "Fault injection: `failat k` / `failsize n` make the ledger allocator throw std::bad_alloc; a throwing op prints all registers, the "
+        "ledger and `sg` (registers the exception may not change are untouched); batches: every single op x 1st/2nd allocation failing, "
+        "special first step x failing op, failing op x any op, buffer ops / constructors / read_from / dynamic_array under failure. "
         "Besides the diff: API inventory (every public member of the anchored classes must be listed with the op reaching it).")
 ASSUMPTIONS = [
     "element type int (trivial); an argument `T const&` is either a value living elsewhere or a reference to an element of the same vector",
@@ -24,6 +27,8 @@ ASSUMPTIONS = [
     "growth policy is a parameter g with n <= g n cap (the driver uses the code's max(n, 2*cap); capacities are compared only as cap >= size and 'reallocated iff needed')",
     "move assignment: the standard leaves the source unspecified; the specification fixes it to the target's old contents (swap)",
     "std::istream::read(count) is good iff count characters were available",
+    "allocate either returns a fresh block or throws std::bad_alloc before any effect; in the code as it is allocate is the first effect of "
+    "every reallocating path (the model places the throw at the member's allocation request)",
     "insert(pos, first, last) with [first,last) inside the vector itself is outside std::vector's contract; it is specified (and proved) "
     "only where raw_vector's answer does not depend on the capacity (last <= pos); elsewhere model and code are compared without a specification",
 ]
@@ -323,6 +328,26 @@ class Sim:
         return f"bmassign {b} {c}"
 
 
+def gen_op(sim, rng, buffer_share):
+    """one random operation; now and then under `failat 1`: if the simulation predicts a reallocation for an operation
+    that allocates once, the operation throws and leaves everything as it was"""
+    inject = rng.chance(1, 14)
+    snap = (list(sim.sz), list(sim.cap), list(sim.brd), list(sim.bws), list(sim.bcap))
+    o = sim.bop() if rng.chance(buffer_share, 100) else sim.vop()
+    if not o or not inject:
+        return [o] if o else []
+    w = o.split()
+    single = w[0] in ("push", "ins1", "insn", "resize", "reserve", "shrink", "bresize", "bappend", "bappendopt") or \
+        (w[0] == "insr" and w[3] != "inp")
+    if not single:
+        return [o]
+    grew = snap[1] != sim.cap or snap[4] != sim.bcap or w[0] == "shrink"
+    if grew:
+        sim.sz, sim.cap, sim.brd, sim.bws, sim.bcap = snap
+        sim.count("failat", w[0])
+    return ["failat 1", o]
+
+
 def histories(rng, count, length, stats, buffer_share):
     ops = []
     for i in range(count):
@@ -331,9 +356,7 @@ def histories(rng, count, length, stats, buffer_share):
         ops.append(sim.ctor(0, i % 7 if i % 7 < 5 else 0))       # every constructor that needs no other register
         n = rng.range(length // 2, length)
         for _ in range(n):
-            o = sim.bop() if rng.chance(buffer_share, 100) else sim.vop()
-            if o:
-                ops.append(o)
+            ops += gen_op(sim, rng, buffer_share)
         ops.append("dump")
         ops.append("end")
     ops.append("reset")
@@ -534,6 +557,65 @@ def buffer_systematic(depth, thorough):
     return ops
 
 
+ALLOC_FIRST = ("reserve 0 {m}", "shrink 0", "push 0 v99", "ins1 0 0 v99", "insn 0 0 2 s0", "insr 0 0 fwd 70,71", "insr 0 0 inp 70,71,72",
+               "resize 0 {m} v1", "ctor 0 count 3 5", "ctor 0 range inp 5,6,7", "ctor 0 il 5,6", "ctor 0 range fl 5,6")
+
+
+def failing(sizes, extras, thorough):
+    """fault injection: every single operation from every small state with the 1st / 2nd allocation of that operation failing
+    (or every request above the current size failing), then observation and further use; two-step: special first step, then a
+    failing second operation; a failing first operation, then any second operation"""
+    ops = []
+    tail = ["dump", "obs 0", "push 0 v55", "shrink 0", "obs 0", "end"]
+    for pre, n in state_prefixes(sizes, extras, (0, 1, 2) if thorough else (0, 2)):
+        for c in single_cases(n, 0, full=thorough):
+            for inj in ("failat 1", "failat 2", f"failsize {n}"):
+                if inj == "failat 2" and " inp " not in c:
+                    continue            # only the single-pass paths allocate more than once
+                ops += pre + [inj, c] + tail
+    for pre, n in state_prefixes(sizes, extras, (0,)):
+        for first, n1, other in first_steps(n):
+            for c in single_cases(n1, 0, full=False):
+                ops += pre + first + ["failat 1", c] + tail
+        for f in ALLOC_FIRST:
+            f = f.format(m=n + 5)
+            if " s0" in f and n == 0:
+                continue
+            for k in (1, 2) if " inp " in f else (1,):
+                for c in single_cases(n, 0, full=False):
+                    # the second operation is valid whether or not the first one had an effect only if it does not depend on the
+                    # size: invalid ones print `invalid` on both sides
+                    ops += pre + [f"failat {k}", f, c] + tail
+    ops.append("reset")
+    return ops
+
+
+def buffer_failing(thorough):
+    ops = []
+    tail = ["bobs 0", "ctor 0 buf 0", "obs 0", "push 0 v55", "bresize 0 1", "bfill 0 5", "ctor 2 buf 0", "obs 2", "dump", "end"]
+    steps = ["bresize 0 {m}", "bappend 0 {m} -", "bappend 0 {m} 31", "bappendopt 0 {m} none", "bappendopt 0 {m} 31"]
+    starts = []
+    for n in (0, 1, 3):
+        starts += [[f"bctor 0 {n}"], [f"bctor 0 {n}", "bresize 0 1", "bfill 0 9"], [f"bread 0 {n} -"], [f"breadopt 0 {n} none"]]
+        if n:
+            starts += [[f"bctor 0 {n}", f"bfill 0 {','.join(['8'] * n)}"], [f"bread 0 {n} 7"]]
+    for n in (0, 1, 3):
+        for k in (1, 2):
+            for c in (f"bctor 0 {n}", f"bactor 0 {n}", f"bread 0 {n} -", f"breadopt 0 {n} none", f"breadopt 0 {n} -", f"dynarr {n} -"):
+                ops += ["reset", "bctor 0 2", "bfill 0 4", f"failat {k}", c] + tail
+            ops += ["reset", "failsize 0", f"bread 0 {n} -", f"bctor 1 {n}", "failsize off"] + tail
+    for st in starts:
+        for m in (0, 1, 2, 5):
+            for c in steps:
+                if " 31" in c and m == 0:
+                    continue
+                for inj in (["failat 1"], ["failsize 1"], ["failsize 3"]):
+                    ops += ["reset"] + st + inj + [c.format(m=m), "failsize off"] + tail
+                    ops += ["reset"] + st + inj + [c.format(m=m), "failsize off", "bswap 0 1", "bmovector 0 1"] + tail
+    ops.append("reset")
+    return ops
+
+
 def cmp_states(alphabet, maxlen):
     """every pair of short sequences, each reached in three ways (exact capacity, a stale element behind the end, spare capacity)"""
     import itertools
@@ -619,6 +701,13 @@ def batches(rng, tier):
                 note="every buffer program of %d steps from every initial write size 0..3 (ctor / read_from / read_from_opt), "
                      "observed through operator[], converted, the released buffer converted again" % (3 if thorough else 2))
     yield Batch("dynarr", dynarr_ops(), exhaustive=True, note="dynamic_array: every size 0..5 x stored prefix")
+    yield Batch("allocation-failure", failing(range(0, 4) if thorough else range(0, 3), [None, 0, 2] if thorough else [None, 2], thorough),
+                kind="history", exhaustive=True,
+                note="fault injection: every single op from every small state x 1st / 2nd allocation of the op throws / every request "
+                     "above the size throws; special first step then a failing op; a failing op then any op; all registers dumped")
+    yield Batch("buffer-allocation-failure", buffer_failing(thorough), kind="history", exhaustive=True,
+                note="constructors, read_from(_opt), resize_write_area, append_from(_opt), dynamic_array under a failing allocation, "
+                     "then conversion and use")
     stats = {}
     ops = histories(rng.fork("vec"), 80000 if thorough else 6000, 60 if thorough else 30, stats, 8)
     yield Batch("vector-histories", ops, kind="history", note="random histories; generator distribution: " + fmt_stats(stats))
